@@ -68,17 +68,19 @@ fn run_case(rec: &mut Rec, d: &Value) {
                 }
             }
         }
-        (bb, pts, done, c, far)
+        // the same sequence through count() / last() / nth() / size_hint(), if next() showed it to be finite
+        let proto = if done { s.points_protocol(1 + (pts.len() % 5)) } else { json!({}) };
+        (bb, pts, done, c, far, proto)
     });
     match r {
-        Ok((bb, pts, done, c, far)) => {
+        Ok((bb, pts, done, c, far, proto)) => {
             if !c.is_empty() || !pts.is_empty() {
                 rec.nontrivial();
             }
             rec.ev(
                 "shape",
                 json!({"bbox": rect_json(&bb), "np": pts.len(), "pr": seq_runs(&pts), "trunc": (!done) as i32,
-                       "cr": runs_of(&c), "nc": c.len(), "far": far}),
+                       "cr": runs_of(&c), "nc": c.len(), "far": far, "proto": proto}),
             );
         }
         Err(p) => {
